@@ -262,6 +262,32 @@ def main():
                        "size": int(sizes["l1"]), "obs": dy(float(np.max(np.abs(pre)))), "range": [0.0, 1.875]})
       except Exception as e:
         errors.append({"k": "estimator_raises", "meta": meta, "pattern": "dm", "exc": repr(e)[:200]})
+  # a batch-norm FOLDED layer: the estimator has to size the folded kernel / bias (what the layer computes at inference),
+  # not the raw kernel variable
+  if shard == 3 % nshards:
+    from qkeras import QConv2DBatchnorm
+    for t, (gam, beta) in enumerate(((8.0, 0.0), (4.0, 6.0), (0.5, 0.0))):
+      meta = {"kind": "folded_conv2d", "wq": "bits8i4", "iq": "relu4", "bq": "none", "depth": 1}
+      try:
+        i = L.Input((3, 3, 2))
+        x = QActivation(INPUT_Q["relu4"][0], name="in_act")(i)
+        lay = QConv2DBatchnorm(2, (2, 2), kernel_quantizer=Q.quantized_bits(8, 4, 1, alpha=1.0), bias_quantizer=Q.quantized_bits(8, 4, 1, alpha=1.0),
+                               use_bias=True, epsilon=2.0 ** -20, name="l1")
+        model = tf.keras.Model(i, lay(x))
+        vals = {"kernel": np.full((2, 2, 2, 2), 0.875), "bias": np.zeros(2), "gamma": np.full(2, gam), "beta": np.full(2, beta),
+                "moving_mean": np.zeros(2), "moving_variance": np.full(2, 1.0 - 2.0 ** -20)}
+        ws = []
+        for v in lay.weights:
+          nm = v.name.split("/")[-1].split(":")[0]
+          ws.append(np.asarray(vals[nm], dtype=v.dtype.as_numpy_dtype).reshape(v.shape) if nm in vals else v.numpy())
+        lay.set_weights(ws)
+        xin = np.full((1, 3, 3, 2), 1.875, dtype=np.float32)
+        pre = model.predict(xin, verbose=0)
+        sizes = estimate.analyze_accumulator(model, {"l1": (0.0, 1.875)})
+        events.append({"k": "estimate", "meta": meta, "pattern": "folded", "layer": "l1", "cls": "QConv2DBatchnorm",
+                       "size": int(sizes["l1"]), "obs": dy(float(np.max(np.abs(pre)))), "range": [0.0, 1.875]})
+      except Exception as e:
+        errors.append({"k": "estimator_raises", "meta": meta, "pattern": "folded", "exc": repr(e)[:200]})
   write_ndjson("%s.%d.ndjson" % (prefix, shard), events)
   json.dump(errors, open("%s.%d.err.json" % (prefix, shard), "w"))
   print(json.dumps({"events": len(events), "errors": len(errors)}))
